@@ -353,7 +353,9 @@ func masksW(thorough bool) []mask {
 	ws := []mask{nil, {}, {"default_int32"}, {"default_string"}, {"default_nested_message"}, {"default_nested_message.a"},
 		{"default_foreign_message.c", "default_foreign_message.d"}, {"default_foreign_message.c"},
 		{"default_int32", "default_string", "default_nested_message", "default_foreign_message"},
-		{"repeated_int32", "map_string_string"}, {"oneof_default_nested_message"}}
+		{"repeated_int32", "map_string_string"}, {"oneof_default_nested_message"},
+		// a writable field named together with one of its own parts is writable as a whole
+		{"default_foreign_message", "default_foreign_message.c"}}
 	if thorough {
 		ws = append(ws, mask{"default_nested_message.a", "default_nested_message.corecursive"}, mask{"default_well_known"}, mask{"optional_int32", "oneof_default_int32"})
 	}
